@@ -55,12 +55,11 @@ fn parse_spec(text: &str) -> Option<Result<u64, ()>> {
     }
     return None;
   }
-  if d <= 2 {
-    // decimal fractions scale the same way, truncated to whole bytes (stated for two-decimal fractions)
-    let prod = n.checked_shl(k)?;
-    if prod < 100u128 << 46 {
-      return Some(Ok((prod / 10u128.pow(d)) as u64));
-    }
+  // decimal fractions scale the same way, truncated to whole bytes, whenever N * unit fits in 53 bits
+  // (N = all digits read as one number) - for any number of decimals
+  let prod = n.checked_shl(k)?;
+  if prod < (1u128 << 53) && d <= 30 {
+    return Some(Ok((prod / 10u128.pow(d)) as u64));
   }
   None
 }
@@ -148,7 +147,25 @@ pub fn run(ctx: &Ctx) -> Report {
           texts.push(format!("{n}{u}"));
         }
         4 => texts.push(format!("{}{u}", rng.next() >> rng.below(64))),
-        5 => texts.push(format!("{}.{}{u}", rng.below(100), rng.below(1_000_000))),
+        5 => {
+          // many decimals, and digit strings whose product with the unit is next to 2^53
+          match rng.below(3) {
+            0 => texts.push(format!("{}.{}{u}", rng.below(100), rng.below(1_000_000))),
+            1 => {
+              let d = rng.range(1, 9) as usize;
+              let total = ((1u64 << 53) >> k).saturating_sub(rng.below(3));
+              let s = total.to_string();
+              if s.len() > d {
+                texts.push(format!("{}.{}{u}", &s[..s.len() - d], &s[s.len() - d..]));
+              }
+            }
+            _ => {
+              let d = rng.range(1, 12) as usize;
+              let frac: String = (0..d).map(|i| if i + 1 == d || rng.chance(4, 5) { '9' } else { char::from(b'0' + rng.below(10) as u8) }).collect();
+              texts.push(format!("{}.{frac}{u}", rng.below(1 << 20)));
+            }
+          }
+        }
         6 => texts.push(format!("{}{u}", rng.below(1 << 20))),
         _ => texts.push(format!("{}.{:02}{u}", rng.below(1 << 30), rng.below(100))),
       }
